@@ -70,6 +70,7 @@ func init() {
 		cells = append(cells, familyF3(th)...)
 		cells = append(cells, familyF4(th)...)
 		cells = append(cells, familyF2(th)...)
+		cells = append(cells, familyIdents()...)
 		e.Rep.Rule("every accepted, compiling generated function of families F1, F-name, F2 (all styles, receivers, both copy directions), F3, F4 x value vectors: profiles {all-zero, all-sentinel, all-extreme, all-nil} x every single-leaf deviation over the leaf domains " +
 			"(ints {0, sentinel, min, max}, strings {\"\", sentinel, unicode}, pointers {nil, &v}, slices {nil, [a,b] cap 4, empty, [a], [a,b,c]}, maps, interfaces, funcs, chans, arrays; complete product for <= 3 leaves) x destination-before {zero, dirty}; " +
 			"oracle: reflect interpretation of the plan (lines that realise an admissible reference outcome; notation-decided paths from the reference): every assigned leaf equals its denotation, every other leaf its previous value, source and arguments deep-equal to their pre-call copies, no panic; " +
